@@ -256,6 +256,14 @@ def correspond(ctx):
                 vwant.append("T")
         vreq.append("jwsver\t%s\t-\t%s\t0" % (o, G.dumps(G.oct_key(rnd, 32) if a == "HS256" else G.pub_of(ks0["P-384"]))))
         vwant.append("F")
+        # the signature objects handed over as an ARRAY, paired with the keys by position; a pair that cannot work (a key of
+        # another type in front) must not disturb the pairs behind it
+        sigs_ = json.loads(o).get("signatures") or []
+        if len(sigs_) == len(pubs) and len(pubs) >= 2:
+            foreign = G.pub_of(ks0["RSA2048"]) if ks0.get("RSA2048") else G.oct_key(rnd, 8)
+            for ksx, all_, w_ in ((pubs, "1", "T"), (pubs, "0", "T"), ([foreign] + pubs[1:], "0", "T"), ({"keys": [foreign] + pubs[1:]}, "0", "T"), ([foreign] + pubs[1:], "1", "F")):
+                vreq.append("jwsver\t%s\t%s\t%s\t%s" % (o, G.dumps(sigs_), G.dumps(ksx), all_))
+                vwant.append(w_)
     for c, o, w in zip(vreq, G.harness(bdir, vreq), vwant):
         if o != w:
             rep.violation("multi-same-alg-roundtrip:" + ("rejects" if w == "T" else "accepts"),
